@@ -318,6 +318,41 @@ pub fn run(ctx: &Ctx, rep: &Report) {
         }
     });
     n += ts.len() as u64;
+    // crosses: both key tables (time bit 23) x address bit patterns x both address kinds x every aircraft type,
+    // positions in all four hemispheres
+    {
+        let cross_t: [u32; 6] = [0x0080_0000 - 64, 0x0080_0000, 1_655_274_034, 1_655_274_034 ^ 0x0080_0000, 0x7fff_ffc0, 0xffff_ffff];
+        let cross_a: [u32; 8] = [0x000000, 0x000001, 0x800000, 0x7fffff, 0xffffff, 0x00ff00, 0xa5a5a5, 0x38f27b];
+        let cross_ref: [[f64; 2]; 5] = [[43.6, 5.1], [-33.9, 18.6], [40.7, -74.0], [-34.6, -58.4], [64.1, 151.2]];
+        let jobs: Vec<(u32, u32, usize)> = cross_t.iter().flat_map(|t| cross_a.iter().flat_map(move |a| (0..cross_ref.len()).map(move |r| (*t, *a, r)))).collect();
+        par_ranges(ctx.threads, jobs.len() as u64, 4, |lo, hi| {
+            for (t, a, ri) in &jobs[lo as usize..hi as usize] {
+                let r = cross_ref[*ri];
+                let (rl, ro) = (units(r[0]), units(r[1]));
+                for magic in [0x10u8, 0x20] {
+                    for actype in 0..16u32 {
+                        for (dl, dn) in [(0i64, 0i64), (-1000, 777), (123_456, -200_000), (-(1 << 18) + 1, (1 << 19) - 1)] {
+                            let (tl, tn) = (rl + dl, ro + dn);
+                            let f = Fields { addr: *a, magic, actype, stealth: actype & 1 == 1, no_track: actype & 2 == 2, alt: 100 + 37 * actype, lat_code: (tl & 0x7ffff) as u32, lon_code: (tn & 0xfffff) as u32, ..Fields::base() };
+                            check_inverse(&f, *t, &r, Some((center(tl), center(tn))), rep);
+                        }
+                    }
+                }
+            }
+        });
+        n += jobs.len() as u64 * 2 * 16 * 4;
+    }
+    // truncated and over-long well-formed packets (the decoder must answer with a record or an error)
+    {
+        let full = Fields::base().packet(base_t);
+        for len in 0..=full.len() + 6 {
+            let mut p = full.clone();
+            p.resize(len, 0x77);
+            let c = check_total(base_t, &base_ref, &p, rep);
+            oc.lock().unwrap()[c as usize] += 1;
+            n += 1;
+        }
+    }
     total.fetch_add(n, Ordering::Relaxed);
     accepted.fetch_add(n, Ordering::Relaxed);
     rep.part("inversion: type/flags/altitude/address/timestamp", total.load(Ordering::Relaxed) - before, json!({"timestamps": ts.len()}));
